@@ -261,7 +261,8 @@ def standins(prop, tier):
     out = []
     for o in ORACLES.get(prop, []):
         out.append({'name': 'oracle', 'label': o['label'], 'bound': 'random small scope, see scope',
-                    'args': {'family': o['family'], 'label': o['label'], 'cases': o['cases'][0 if tier == 'quick' else 1],
+                    # thorough: five times the listed number of random cases per family, within a 15 minute budget each
+                    'args': {'family': o['family'], 'label': o['label'], 'cases': o['cases'][0] if tier == 'quick' else 5 * o['cases'][1],
                              'budget_s': 60 if tier == 'quick' else 900}, 'timeout': 1200})
     if prop == 'C20':
         out.append({'name': 'C20_cache', 'label': 'IndexedCache insert/check/retrieve, exhaustive',
